@@ -258,16 +258,21 @@ func checkDSN(c *Ctx, p *Prog, rule string) {
 	e := NewEngine(p)
 	flow := NewFlow(p, e.cells)
 	var dsn ssa.Value
-	for _, b := range f.Blocks {
-		for _, in := range b.Instrs {
-			call, ok := in.(*ssa.Call)
-			if !ok || len(call.Common().Args) != 2 {
-				continue
-			}
-			// the opener: a call of a func(driver, dsn) (*sql.DB, error) value or sql.Open
-			sig := call.Common().Signature()
-			if sig.Results().Len() == 2 && strings.HasSuffix(sig.Results().At(0).Type().String(), "database/sql.DB") {
-				dsn = call.Common().Args[1]
+	for _, g := range reachFuncs(p, f, PkgSQLite) { // New or the helper that opens the database
+		for _, b := range g.Blocks {
+			for _, in := range b.Instrs {
+				call, ok := in.(*ssa.Call)
+				if !ok || len(call.Common().Args) != 2 {
+					continue
+				}
+				// the opener: a call of a func(driver, dsn) (*sql.DB, error) value or sql.Open
+				sig := call.Common().Signature()
+				if sig.Results().Len() == 2 && strings.HasSuffix(sig.Results().At(0).Type().String(), "database/sql.DB") && isBasicKind(call.Common().Args[1].Type(), types.String) {
+					if sc := call.Common().StaticCallee(); sc != nil && PkgOf(sc) == PkgSQLite {
+						continue // a helper of the package: the opener is inside it
+					}
+					dsn = call.Common().Args[1]
+				}
 			}
 		}
 	}
@@ -891,10 +896,25 @@ func checkLoadOffsetNotFound(c *Ctx, p *Prog, pkg, typ, rule string) {
 			continue
 		}
 		o, e := resolveResult(ret, 0), resolveResult(ret, 1)
-		ko, ok1 := o.(*ssa.Const)
 		ke, ok2 := e.(*ssa.Const)
-		if ok1 && ok2 && ko.Value != nil && ko.Value.ExactString() == `""` && ke.Value == nil {
-			ok = true
+		if !ok2 || ke.Value != nil {
+			continue
+		}
+		// the offset result: the returned constant, or any value a named result cell is given
+		vals := []ssa.Value{o}
+		if ld, isLd := o.(*ssa.UnOp); isLd && ld.Op == token.MUL {
+			if al, isAl := ld.X.(*ssa.Alloc); isAl {
+				for _, ref := range *al.Referrers() {
+					if st, isSt := ref.(*ssa.Store); isSt && st.Addr == al {
+						vals = append(vals, st.Val)
+					}
+				}
+			}
+		}
+		for _, v := range vals {
+			if ko, ok1 := stripConv(v).(*ssa.Const); ok1 && ko.Value != nil && ko.Value.ExactString() == `""` {
+				ok = true
+			}
 		}
 	}
 	c.Check(ok, rule, shortPkg(pkg)+"."+typ+".LoadOffset/unknown-id-is-oldest", p.Pos(f.Pos()), "an unknown subscription id yields (OffsetOldest, nil)", "LoadOffset has no path returning (OffsetOldest, nil) for an unknown id")
@@ -1079,7 +1099,7 @@ func checkJournal(c *Ctx, p *Prog, stmts []sqlStmt, rule string) {
 
 type txRule struct{ BaseRule }
 
-func (r *txRule) Inline(fn *ssa.Function) bool { return fn.Parent() != nil }
+func (r *txRule) Inline(fn *ssa.Function) bool { return fn.Parent() != nil || PkgOf(fn) == PkgSQLite }
 func (r *txRule) PredOK(string) bool           { return true }
 
 // sigma: [0] tx state n(one) b(egun) c(ommitted) r(olled back)
@@ -1105,6 +1125,21 @@ func (r *txRule) OnInstr(e *Engine, st *State, fc *FrameCtx, in ssa.Instruction)
 		}
 	}
 	return false
+}
+
+// a failed Begin leaves no transaction behind
+func (r *txRule) OnBranch(e *Engine, st *State, fc *FrameCtx, in *ssa.If, taken bool) {
+	x, nonNilOnTrue, ok := nilTest(in.Cond)
+	if !ok || taken != nonNilOnTrue {
+		return
+	}
+	if ex, isEx := stripConv(x).(*ssa.Extract); isEx && ex.Index == 1 {
+		if call, isCall := ex.Tuple.(*ssa.Call); isCall {
+			if n := calleeName(call.Common()); strings.HasSuffix(n, ").BeginTx") || strings.HasSuffix(n, ").Begin") {
+				st.Sigma = "n"
+			}
+		}
+	}
 }
 
 func (r *txRule) OnExit(e *Engine, st *State, kind ExitKind) {
@@ -1169,38 +1204,60 @@ func checkMigration(c *Ctx, p *Prog, stmts []sqlStmt, rule string) {
 		e.Run(&txRule{}, f, "n")
 		c.Stats["product_states"] += e.States
 		name := FuncDisplay(f)
+		// the path rule cannot follow the deferred idiom (`defer func(){ if err != nil
+		// { Rollback } }()` reads the named result through a cell): it is used for the
+		// explicit style only, where every failing path rolls back by itself
+		txClean := len(e.Findings) == 0 && !e.Exhausted
+		txFindings := e.Findings
 		// structural: commit's error is returned; a deferred rollback guarded by the named error result
 		commitReturned, deferredRollback := false, false
-		for _, b := range f.Blocks {
-			for _, in := range b.Instrs {
-				if call, ok := in.(*ssa.Call); ok && strings.HasSuffix(calleeName(call.Common()), "Tx).Commit") {
-					for _, ref := range *call.Referrers() {
-						switch x := ref.(type) {
-						case *ssa.Return:
-							commitReturned = true
-						case *ssa.Store:
-							_ = x
-							commitReturned = true
-						case *ssa.Call:
-							// handed to a pass-through helper/closure whose result is returned:
-							// `return rollbackOnError(tx.Commit())`
-							if g := localCallee(x.Common()); g != nil {
-								for i, a := range x.Common().Args {
-									if a != ssa.Value(call) || i >= len(g.Params) {
-										continue
-									}
-									passes := false
-									for _, ret := range returnsOf(g) {
-										for _, rv := range ret.Results {
-											if stripConv(rv) == ssa.Value(g.Params[i]) {
-												passes = true
+		for _, cf := range reachFuncs(p, f, PkgSQLite) { // the commit may sit in a helper handed the tx
+			for _, b := range cf.Blocks {
+				for _, in := range b.Instrs {
+					if call, ok := in.(*ssa.Call); ok && strings.HasSuffix(calleeName(call.Common()), "Tx).Commit") {
+						for _, ref := range *call.Referrers() {
+							switch x := ref.(type) {
+							case *ssa.Return:
+								commitReturned = true
+							case *ssa.Store:
+								_ = x
+								commitReturned = true
+							case *ssa.BinOp:
+								// `if err := tx.Commit(); err != nil { …; return err }`
+								if _, nonNilOnTrue, isNil := nilTest(x); isNil {
+									for _, r2 := range *x.Referrers() {
+										if iff, ok := r2.(*ssa.If); ok {
+											arm := iff.Block().Succs[1]
+											if nonNilOnTrue {
+												arm = iff.Block().Succs[0]
+											}
+											if !reachesNilReturn(arm) {
+												commitReturned = true
 											}
 										}
 									}
-									if passes {
-										for _, r2 := range *x.Referrers() {
-											if _, isRet := r2.(*ssa.Return); isRet {
-												commitReturned = true
+								}
+							case *ssa.Call:
+								// handed to a pass-through helper/closure whose result is returned:
+								// `return rollbackOnError(tx.Commit())`
+								if g := localCallee(x.Common()); g != nil {
+									for i, a := range x.Common().Args {
+										if a != ssa.Value(call) || i >= len(g.Params) {
+											continue
+										}
+										passes := false
+										for _, ret := range returnsOf(g) {
+											for _, rv := range ret.Results {
+												if stripConv(rv) == ssa.Value(g.Params[i]) {
+													passes = true
+												}
+											}
+										}
+										if passes {
+											for _, r2 := range *x.Referrers() {
+												if _, isRet := r2.(*ssa.Return); isRet {
+													commitReturned = true
+												}
 											}
 										}
 									}
@@ -1224,6 +1281,24 @@ func checkMigration(c *Ctx, p *Prog, stmts []sqlStmt, rule string) {
 			}
 		}
 		c.Check(commitReturned, rule, name+"/commit-error-returned", p.Pos(f.Pos()), "Commit's error is the function's result", "the migration does not return Commit's error: a failed commit is reported as success")
+		// an explicit rollback on every failing path (decided by the path rule above) is as
+		// good as the deferred idiom
+		hasRollback := false
+		for _, g := range append([]*ssa.Function{f}, f.AnonFuncs...) {
+			for _, b := range g.Blocks {
+				for _, in := range b.Instrs {
+					if ci, ok := in.(ssa.CallInstruction); ok && strings.HasSuffix(calleeName(ci.Common()), "Tx).Rollback") {
+						hasRollback = true
+					}
+				}
+			}
+		}
+		if !deferredRollback {
+			for _, fd := range txFindings {
+				c.Violate(rule, name+"/"+fd.Construct, p.Pos(fd.Pos), fd.Msg, fd.Trace)
+			}
+		}
+		deferredRollback = deferredRollback || (txClean && hasRollback)
 		c.Check(deferredRollback, rule, name+"/rollback-on-error", p.Pos(f.Pos()), "a deferred Rollback runs whenever the function's error result is non-nil", "the migration has no deferred Rollback guarded by its error result: a failed step leaves the transaction open")
 		// every statement executed inside the transaction goes through the tx handle
 		for _, b := range f.Blocks {
